@@ -8,7 +8,7 @@ usage: tools/seeded.py [--all] [--thorough] [name ...]"""
 import json, os, subprocess, sys, shutil, time
 HERE = os.path.dirname(os.path.dirname(os.path.abspath(__file__)))
 SEED = os.path.join(HERE, "seeded")
-SCR = "/root/scratch/sd"
+SCR = f"/root/scratch/sd{os.getpid()}"
 args = [a for a in sys.argv[1:] if not a.startswith("--")]
 ALL = "--all" in sys.argv
 TIER = "thorough" if "--thorough" in sys.argv else "quick"
